@@ -289,7 +289,13 @@ func (e *Exec) concretize(i Int, what string, limit int) Int {
 		if e.pos < len(e.prefix) {
 			cand = e.prefix[e.pos].Aux
 		} else {
-			in := e.nmI(i)
+			in := i
+			if in.Off != 0 || strings.ContainsAny(in.Sym, "( ") {
+				n := e.fresh("cz")
+				e.declare(n, sortBV(i.W))
+				e.sol.Send("(assert (= " + n + " " + i.T() + "))")
+				in = Int{W: i.W, Signed: i.Signed, Sym: n}
+			}
 			i = in
 			r, m := e.sol.Check("", []string{in.Sym})
 			if r != RSat {
